@@ -13,6 +13,7 @@ import (
 	"github.com/zishang520/engine.io/v2/transports"
 	"github.com/zishang520/engine.io/v2/types"
 	"github.com/zishang520/engine.io/v2/utils"
+	"github.com/zishang520/engine.io/v2/verifhook"
 )
 
 var (
@@ -325,6 +326,9 @@ func (bs *baseServer) Handshake(transportName string, ctx *types.HttpContext) (*
 	transport.OnRequest(ctx)
 
 	socket := NewSocket(id, bs, transport, ctx, protocol)
+	if verifhook.Enabled {
+		verifhook.Point("server.Handshake.afterNewSocket", socket)
+	}
 
 	bs.clients.Store(id, socket)
 	bs.clientsCount.Add(1)
